@@ -63,7 +63,7 @@ using namespace opensmt::tokens;
 %%
 
 \;.*                         // Eat comments
-[ \t\n]+                     // Eat spaces
+[ \t\r\n]+                   // Eat spaces
 
 "!"        { return *yyget_text(yyscanner);                                                   }
 "_"        { return *yyget_text(yyscanner);                                                   }
